@@ -19,6 +19,15 @@ import (
 
 const vbase = 400 * 24 * time.Hour
 
+func sortedKeys(m map[string]bool) []string {
+	out := make([]string, 0, len(m))
+	for k := range m {
+		out = append(out, k)
+	}
+	sort.Strings(out)
+	return out
+}
+
 // ---------------------------------------------------------------- RollingWindow
 
 type rwAdd struct {
@@ -51,8 +60,51 @@ func TestVerifC16RollingWindow(t *testing.T) {
 		var logb strings.Builder
 		fmt.Fprintf(&logb, "size=%d iv=%v ign=%v:", size, interval, ignore)
 		boundary, reducedAfterBoundary := false, false
+		lastAddIdx := int64(0) // bucket of the latest Add (the window only moves on Add); 0 = creation
+		cls := map[string]bool{}
 		check := func() {
 			cur := int64(now / interval)
+			// classes of this Reduce (histogram only)
+			{
+				span := cur - lastAddIdx
+				curData, otherData, stale := false, false, false
+				for _, a := range adds {
+					if a.idx == cur {
+						curData = true
+					} else if a.idx > cur-int64(size) {
+						otherData = true
+					}
+					if a.idx > lastAddIdx-int64(size) && a.idx <= cur-int64(size) {
+						stale = true // expired by now, but no Add has reset its bucket yet
+					}
+				}
+				switch {
+				case span == 0:
+					cls["reduce: no bucket passed since the latest add"] = true
+					if ignore && curData {
+						cls["reduce: ignoreCurrent and the current bucket holds data"] = true
+						if otherData && cur >= int64(size) {
+							cls["reduce: ignoreCurrent, current bucket holds data, ring already wrapped, older buckets hold data"] = true
+						}
+					}
+				case span < int64(size):
+					cls["reduce: 0 < buckets passed since the latest add < size"] = true
+					if stale {
+						cls["reduce: expired data not yet reset must be skipped"] = true
+						if ignore {
+							cls["reduce: ignoreCurrent and expired data not yet reset"] = true
+						}
+						if otherData {
+							cls["reduce: expired unreset data next to live data"] = true
+						}
+					}
+				default:
+					cls["reduce: >= size buckets passed since the latest add"] = true
+					if stale {
+						cls["reduce: whole window expired but not reset"] = true
+					}
+				}
+			}
 			// expected per-bucket (sum,count) for bucket indices in the visible range
 			type sc struct{ sum, cnt int64 }
 			exp := map[int64]*sc{}
@@ -97,6 +149,7 @@ func TestVerifC16RollingWindow(t *testing.T) {
 				v := rapid.Int64Range(1, 1000).Draw(t, "v")
 				w.Add(v)
 				adds = append(adds, rwAdd{int64(now / interval), v})
+				lastAddIdx = int64(now / interval)
 				fmt.Fprintf(&logb, " add(%d)", v)
 			},
 			"advance": func(t *rapid.T) {
@@ -137,6 +190,9 @@ func TestVerifC16RollingWindow(t *testing.T) {
 		})
 		if len(adds) > 0 {
 			st.Class("with-adds")
+		}
+		for _, k := range sortedKeys(cls) {
+			st.Class("cases with " + k)
 		}
 		if boundary && reducedAfterBoundary && len(adds) > 1 {
 			st.NonTrivial(logb.String())
@@ -294,7 +350,62 @@ func safeMapMachine(t *rapid.T, st *verifkit.Stats, bulk bool) {
 	deletions := 0
 	nextKey := 0
 	var logb strings.Builder
+	// classification of the history by the internal generation state (histogram only; the
+	// oracle is the Go map `model`)
+	cls := map[string]bool{}
+	maxDel, copyThr := collection.VerifSafeMapThresholds()
+	mSet := func(k, v int) {
+		dO, _, lO, lN := collection.VerifSafeMapState(m)
+		m.Set(k, v)
+		_, _, lO2, lN2 := collection.VerifSafeMapState(m)
+		switch {
+		case dO > maxDel:
+			cls["set goes to the new generation"] = true
+			if lO2 < lO {
+				cls["set moves a key from the old to the new generation"] = true
+			}
+		case dO == maxDel:
+			cls["set with deletionOld == maxDeletion exactly"] = true
+		}
+		if dO <= maxDel && lN2 < lN {
+			cls["set moves a key from the new to the old generation"] = true
+		}
+	}
+	mDel := func(k int) {
+		dO, dN, lO, lN := collection.VerifSafeMapState(m)
+		m.Del(k)
+		dO2, dN2, lO2, lN2 := collection.VerifSafeMapState(m)
+		if dO2 == dO && dN2 == dN && lO2 == lO && lN2 == lN {
+			return // key absent, nothing moved
+		}
+		inNew := dO2 != dO+1 && lO2 != lO-1 && (dN2 == dN+1 || dN2 == 0)
+		if inNew && dN2 == dN+1 {
+			cls["del of a key in the new generation"] = true
+		}
+		if lN > 0 && lN2 == 0 && dN2 == 0 && lO2 >= lO {
+			// the new generation became the old one (first branch) or was folded into it (second)
+			if dO >= maxDel-1 && lO <= copyThr {
+				cls["generation switch with a non-empty new generation"] = true
+			}
+			if dN >= maxDel-1 {
+				cls["new generation folded back into the old one (deletionNew reached maxDeletion)"] = true
+			}
+		}
+		if dO2 < dO {
+			cls["generation switch (deletionOld reset)"] = true
+			if dO2 > 0 {
+				cls["generation switch carrying over deletions of the new generation"] = true
+			}
+		}
+	}
+	probe := func() {
+		_, _, lO, lN := collection.VerifSafeMapState(m)
+		if lO > 0 && lN > 0 {
+			cls["sweep with both generations non-empty"] = true
+		}
+	}
 	sweep := func(full bool) {
+		probe()
 		if m.Size() != len(model) {
 			t.Fatalf("Size=%d model=%d; %s", m.Size(), len(model), logb.String())
 		}
@@ -339,7 +450,7 @@ func safeMapMachine(t *rapid.T, st *verifkit.Stats, bulk bool) {
 		"set": func(t *rapid.T) {
 			k := keyGen.Draw(t, "k")
 			val++
-			m.Set(k, val)
+			mSet(k, val)
 			model[k] = val
 			if k >= nextKey {
 				nextKey = k + 1
@@ -351,7 +462,7 @@ func safeMapMachine(t *rapid.T, st *verifkit.Stats, bulk bool) {
 			if _, ok := model[k]; ok {
 				deletions++
 			}
-			m.Del(k)
+			mDel(k)
 			delete(model, k)
 			fmt.Fprintf(&logb, " del(%d)", k)
 		},
@@ -370,11 +481,36 @@ func safeMapMachine(t *rapid.T, st *verifkit.Stats, bulk bool) {
 			n := rapid.SampledFrom([]int{500, 999, 1000, 1500, 5000}).Draw(t, "n")
 			for i := 0; i < n; i++ {
 				val++
-				m.Set(nextKey, val)
+				mSet(nextKey, val)
 				model[nextKey] = val
 				nextKey++
 			}
 			fmt.Fprintf(&logb, " setMany(%d)", n)
+		}
+		// re-set existing keys in bulk: once deletionOld has passed maxDeletion every such Set
+		// moves a key from the old to the new generation (and can take the old generation
+		// below copyThreshold without a Del, so that the next Del switches generations with a
+		// large new generation).  The single-key `set` action hits a surviving key too rarely
+		// (measured: 1 of 60 quick cases).
+		actions["resetMany"] = func(t *rapid.T) {
+			n := rapid.SampledFrom([]int{1, 10, 500, 999, 1000, 1001, 2000}).Draw(t, "n")
+			keys := make([]int, 0, len(model))
+			for k := range model {
+				keys = append(keys, k)
+			}
+			sort.Ints(keys)
+			if rapid.Bool().Draw(t, "fromTop") {
+				sort.Sort(sort.Reverse(sort.IntSlice(keys)))
+			}
+			if len(keys) > n {
+				keys = keys[:n]
+			}
+			for _, k := range keys {
+				val++
+				mSet(k, val)
+				model[k] = val
+			}
+			fmt.Fprintf(&logb, " resetMany(%d)", n)
 		}
 		actions["delMany"] = func(t *rapid.T) {
 			n := rapid.SampledFrom([]int{3000, 9999, 10000, 10001, 12000}).Draw(t, "n")
@@ -393,7 +529,7 @@ func safeMapMachine(t *rapid.T, st *verifkit.Stats, bulk bool) {
 				if done >= n || len(model) <= keep {
 					break
 				}
-				m.Del(k)
+				mDel(k)
 				delete(model, k)
 				deletions++
 				done++
@@ -401,8 +537,8 @@ func safeMapMachine(t *rapid.T, st *verifkit.Stats, bulk bool) {
 			// top up with set+del of fresh keys so the deletion counters move even when few keys exist
 			for ; done < n; done++ {
 				val++
-				m.Set(nextKey, val)
-				m.Del(nextKey)
+				mSet(nextKey, val)
+				mDel(nextKey)
 				nextKey++
 				deletions++
 			}
@@ -411,6 +547,9 @@ func safeMapMachine(t *rapid.T, st *verifkit.Stats, bulk bool) {
 	}
 	t.Repeat(actions)
 	sweep(true)
+	for _, k := range sortedKeys(cls) {
+		st.Class("cases with " + k)
+	}
 	if bulk {
 		if deletions >= 10000 {
 			st.Class("migration-reached")
@@ -447,13 +586,20 @@ func TestVerifC16Queue(t *testing.T) {
 		takes := 0
 		grewWrapped := false
 		capNow := size
+		head, growHeadNonZero, growHeadZero := 0, 0, 0 // position of the oldest element in a ring of capNow (histogram only)
 		var logb strings.Builder
 		fmt.Fprintf(&logb, "size=%d:", size)
 		t.Repeat(map[string]func(*rapid.T){
 			"put": func(t *rapid.T) {
 				n++
 				if len(model) == capNow {
+					if head != 0 {
+						growHeadNonZero++
+					} else {
+						growHeadZero++
+					}
 					capNow += size
+					head = 0
 					if takes > 0 {
 						grewWrapped = true
 					}
@@ -474,6 +620,7 @@ func TestVerifC16Queue(t *testing.T) {
 					}
 					model = model[1:]
 					takes++
+					head = (head + 1) % capNow
 				}
 				logb.WriteString(" take")
 			},
@@ -496,6 +643,15 @@ func TestVerifC16Queue(t *testing.T) {
 		if grewWrapped {
 			st.NonTrivial(logb.String())
 		}
+		if growHeadZero > 0 {
+			st.Class("cases with growth while the oldest element is at position 0")
+		}
+		if growHeadNonZero > 0 {
+			st.Class("cases with growth while the oldest element is not at position 0")
+		}
+		if growHeadNonZero > 1 {
+			st.Class("cases with >= 2 growths while the oldest element is not at position 0")
+		}
 	})
 }
 
@@ -510,7 +666,20 @@ func TestVerifC16Ring(t *testing.T) {
 		r := collection.NewRing(n)
 		var model []int
 		adds := 0
+		rcls := map[string]bool{}
 		check := func() {
+			switch {
+			case adds < n:
+				rcls["take: not yet full"] = true
+			case adds == n:
+				rcls["take: exactly full"] = true
+			case adds < 2*n:
+				rcls["take: overwritten, before the first index fold"] = true
+			case adds%n == 0:
+				rcls["take: right after an index fold"] = true
+			default:
+				rcls["take: after a fold, mid revolution"] = true
+			}
 			got := r.Take()
 			want := model
 			if len(want) > n {
@@ -538,6 +707,9 @@ func TestVerifC16Ring(t *testing.T) {
 		})
 		if adds > 2*n {
 			st.NonTrivial(fmt.Sprintf("n=%d adds=%d", n, adds))
+		}
+		for _, k := range sortedKeys(rcls) {
+			st.Class("cases with " + k)
 		}
 	})
 }
@@ -668,7 +840,8 @@ func TestVerifC16Set(t *testing.T) {
 
 // ---------------------------------------------------------------- Cache expiry (real timing wheel, 1 s ticks)
 
-// An entry set with expiry e is still returned well before 0.95·e and is gone (Get misses, Take
+// An entry set with expiry e is still returned until floor(0.95·e/1 s)−1 s after it was set (1 s
+// wheel granularity, see below) and is gone (Get misses, Take
 // calls the loader) after 1.05·e plus two wheel ticks; re-setting a key restarts its expiry;
 // a deleted key's timer does not remove a later entry early.  Real time: the "present" clause is
 // only asserted when the measured elapsed time is safely inside the window, the "gone" clause is
@@ -690,10 +863,10 @@ func TestVerifC16CacheExpiry(t *testing.T) {
 			t.Fatal(err)
 		}
 		type ent struct {
-			key     string
-			expire  time.Duration
-			setAt   time.Time
-			reset   bool // set again after 1 s (expiry restarts)
+			key        string
+			expire     time.Duration
+			setAt      time.Time
+			reset      bool // set again after 1 s (expiry restarts)
 			delThenSet bool
 		}
 		n := rapid.IntRange(1, 4).Draw(t, "keys")
@@ -740,7 +913,14 @@ func TestVerifC16CacheExpiry(t *testing.T) {
 				el := time.Since(e.setAt)
 				v, ok := c.Get(e.key)
 				el2 := time.Since(e.setAt)
-				safe := time.Duration(float64(e.expire)*0.95) - 1100*time.Millisecond
+				// The wheel rounds the jittered delay (> 0.95·expire) down to whole 1 s ticks and
+				// fires at that many ticks after the set; the first of them can follow the set at
+				// once (a re-set issued just before a tick is taken), so the key is only certain
+				// to be there for floor(0.95·expire/1 s) − 1 seconds (DESIGN §4 C16: "present
+				// while fewer than ⌊0.95·e/1 s⌋−1 ticks elapsed").  The former bound
+				// 0.95·expire − 1.1 s was stronger than that (false alarm at VERIF_SEED=5: expire
+				// 2 s, re-set just before the first tick, gone 150 ms later); 100 ms margin.
+				safe := (time.Duration(float64(e.expire)*0.95)/time.Second-1)*time.Second - 100*time.Millisecond
 				if el2 < safe {
 					want := i
 					if e.reset {
